@@ -711,7 +711,11 @@ class AnnotateResidues(Processor):
 
         end = 0
         begin = 0
-        for molecule, nres in zip(system.molecules, molecule_lengths):
+        selected_molecules = [
+            molecule for molecule in system.molecules
+            if self.molecule_selector(molecule)
+        ]
+        for molecule, nres in zip(selected_molecules, molecule_lengths):
             end += nres
             annotate_residues_from_sequence(
                 molecule,
